@@ -211,4 +211,103 @@ theorem coneI_sound (K : Kern α) (z : α) (fuel : Nat) : ∀ (plan : Plan) (lo 
                 · omega
                 · exact ih _ _ a b hc x x' t t' hb hb' hag (upos c s0 u + k - s0.occ) (by omega) (by omega) (by omega) (by omega)
 
+/-! ## constants: the DC clause on the engine -/
+
+/-- like `coneI`, but `none` as soon as a window reaches into a stage's zero preload (start-up) -/
+def coneS (fuel : Nat) : Plan → Nat → Nat → Option (Nat × Nat)
+  | [], lo, hi => some (lo, hi)
+  | (c, s0) :: ps, lo, hi =>
+    if hi < lo then none else
+    match unitOf c s0 lo fuel 0, unitOf c s0 hi fuel 0 with
+    | some ulo, some uhi =>
+      let w := winBounds c s0 ulo (uhi - ulo)
+      if w.1 < s0.occ ∨ w.2 ≤ w.1 then none
+      else coneS fuel ps (w.1 - s0.occ) (w.2 - s0.occ - 1)
+    | _, _ => none
+
+/-- unit `u` maps the constant window of value `v` to outputs of value `v` -/
+def UFix (U : UnitSem α) (v : α) : Prop := ∀ u, ∀ y ∈ U.out u (List.replicate (U.len u) v), y = v
+
+/-- every stage of the plan reproduces the constant `v` -/
+def PlanFix (K : Kern α) (v : α) : Plan → Prop
+  | [] => True
+  | (c, s0) :: ps => UFix (unitSem K c s0) v ∧ PlanFix K v ps
+
+/-- **DC on the engine.**  Beyond start-up (`coneS` defined: no window of the cone touches a preload), an input that is
+    the constant `v` on the cone gives the output `v` — for every plan whose stages each reproduce `v` (unit row sums). -/
+theorem coneS_const (K : Kern α) (z v : α) (fuel : Nat) : ∀ (plan : Plan) (lo hi a b : Nat), coneS fuel plan lo hi = some (a, b) →
+    PlanFix K v plan → ∀ (x s : List α), CInv K z plan x s → (∀ i, a ≤ i → i ≤ b → x[i]? = some v) →
+    ∀ j, lo ≤ j → j ≤ hi → j < s.length → s[j]? = some v := by
+  intro plan
+  induction plan with
+  | nil =>
+    intro lo hi a b hc _ x s h1 hag j hlo hhi _
+    simp only [coneS, Option.some.injEq, Prod.mk.injEq] at hc
+    obtain ⟨rfl, rfl⟩ := hc
+    cases h1
+    exact hag j hlo hhi
+  | cons p ps ih =>
+    intro lo hi a b hc hfix x s h1 hag j hlo hhi hjs
+    obtain ⟨c, s0⟩ := p
+    obtain ⟨hU, hfix'⟩ := hfix
+    simp only [coneS] at hc
+    split at hc
+    · simp at hc
+    · cases hul : unitOf c s0 lo fuel 0 with
+      | none => simp [hul] at hc
+      | some ulo =>
+        cases huh : unitOf c s0 hi fuel 0 with
+        | none => simp [hul, huh] at hc
+        | some uhi =>
+          simp only [hul, huh] at hc
+          cases h1 with
+          | @cons _ _ t _ _ m hb hst =>
+            have hcnt : ∀ m h, ((unitSem K c s0).G m h).length = outCount c s0 m := fun m h => G_length K c s0 h m
+            rw [hcnt] at hjs
+            obtain ⟨u, hum, hu1, hu2⟩ := unit_exists c s0 j m hjs
+            obtain ⟨l1, l2⟩ := unitOf_spec c s0 lo fuel 0 ulo hul (by rw [outCount_zero]; omega)
+            obtain ⟨g1, g2⟩ := unitOf_spec c s0 hi fuel 0 uhi huh (by rw [outCount_zero]; omega)
+            have hge : ulo ≤ u := by
+              rcases Nat.lt_or_ge u ulo with hh | hh
+              · have := outCount_mono c s0 (show u + 1 ≤ ulo by omega); omega
+              · exact hh
+            have hle : u ≤ uhi := by
+              rcases Nat.lt_or_ge uhi u with hh | hh
+              · have := outCount_mono c s0 (show uhi + 1 ≤ u by omega); omega
+              · exact hh
+            obtain ⟨w1, w2⟩ := winBounds_spec c s0 ulo (uhi - ulo) u hge (by omega)
+            generalize hw : winBounds c s0 ulo (uhi - ulo) = w at *
+            split at hc
+            · simp at hc
+            · rename_i hnot
+              have hocc : s0.occ ≤ w.1 := by omega
+              rw [G_getElem _ _ hcnt _ m u j hum hu1 hu2]
+              have hs := hst u hum
+              -- the window is the constant window
+              have hwin : (unitSem K c s0).window u (List.replicate s0.occ z ++ t) = List.replicate ((unitSem K c s0).len u) v := by
+                apply List.ext_getElem?
+                intro k
+                by_cases hk : k < (unitSem K c s0).len u
+                · rw [window_getElem _ u _ k hk, List.getElem?_replicate, if_pos hk]
+                  rw [unitSem_pos] at hs ⊢
+                  rw [unitSem_len] at hs hk
+                  simp only [List.length_append, List.length_replicate] at hs
+                  rw [List.getElem?_append_right (by simp; omega)]
+                  simp only [List.length_replicate]
+                  have hlen : upos c s0 u + k - s0.occ < t.length := by omega
+                  have := ih _ _ a b hc hfix' x t hb hag (upos c s0 u + k - s0.occ) (by omega) (by omega) hlen
+                  exact this
+                · rw [List.getElem?_eq_none (by rw [window_length _ u _ hs]; omega), List.getElem?_eq_none (by simp; omega)]
+              rw [hwin]
+              -- and its outputs are all `v`
+              have hlt : j - outCount c s0 u < ((unitSem K c s0).out u (List.replicate ((unitSem K c s0).len u) v)).length := by
+                have e := hcnt (u + 1) (List.replicate s0.occ z ++ t)
+                have e0 := hcnt u (List.replicate s0.occ z ++ t)
+                have : (unitSem K c s0).G (u + 1) (List.replicate s0.occ z ++ t) =
+                    (unitSem K c s0).G u (List.replicate s0.occ z ++ t) ++ (unitSem K c s0).out u ((unitSem K c s0).window u (List.replicate s0.occ z ++ t)) := rfl
+                rw [this, List.length_append, e0, hwin] at e
+                omega
+              rw [List.getElem?_eq_getElem hlt]
+              exact congrArg some (hU u _ (List.getElem_mem hlt))
+
 end Soxr.Cr
